@@ -11,13 +11,14 @@ import (
 // (g) top-level shape.  A necessary condition of "fc translates this file again": the file is a sequence of
 // top-level items.  Decided on the checker's own token stream (comments removed exactly as fc's lexer removes
 // them: a block comment ends at the FIRST "*/"):
-//   g1  every line-leading token in column 0 opens an item (package/import/package_info/type/let) or, inside a
-//       type item, continues it (`|`, `and`, `}`) — text that
-//       fell out of a comment or a mis-indented continuation is not an item;
-//   g2  no "*" immediately followed by "/" outside comments and strings — the closing mark of a comment that
-//       had already been closed earlier (no Folang expression contains that pair);
-//   g3  a package_info item is `package_info NAME =` followed only by `let NAME[<..>] : …` / `type NAME[<..>]`
-//       lines (fc rejects anything else with "Unknown pkginfo def").
+//
+//	g1  every line-leading token in column 0 opens an item (package/import/package_info/type/let) or, inside a
+//	    type item, continues it (`|`, `and`, `}`) — text that
+//	    fell out of a comment or a mis-indented continuation is not an item;
+//	g2  no "*" immediately followed by "/" outside comments and strings — the closing mark of a comment that
+//	    had already been closed earlier (no Folang expression contains that pair);
+//	g3  a package_info item is `package_info NAME =` followed only by `let NAME[<..>] : …` / `type NAME[<..>]`
+//	    lines (fc rejects anything else with "Unknown pkginfo def").
 func checkTopLevelShape(r *core.Report, label string, toks []fo.Tok) {
 	bad := 0
 	lineLead := true
